@@ -41,6 +41,16 @@ class KindEval(PyEval):
         super().__init__(idx, module)
         self.lt = lt_body
 
+    kinds: dict = {}  # name -> kind token, in definition order (set by run)
+
+    def attr(self, value, name, node, env):
+        d = dotted(node) or ""
+        if d.endswith("NumericType.Kind") or d == "Kind":
+            return list(self.kinds.values())  # iterating an Enum class yields its members in definition order
+        if d.split(".")[-2:-1] == ["Kind"] and name in self.kinds:
+            return self.kinds[name]
+        return super().attr(value, name, node, env)
+
     def tok_compare(self, op, a, b):
         if isinstance(a, Tok) and isinstance(b, Tok) and "value" in a.attrs and "value" in b.attrs:
             if self.lt is None:
@@ -87,10 +97,12 @@ def run(ctx: Ctx) -> None:
     ps = [a.arg for a in tc.node.args.args]
     ev = KindEval(idx, EC, lt.node if lt else None)
 
+    ev.kinds = {k: Tok(k, value=v, name=k) for k, v in members.items()}
+
     def ty_tok(k: str | None) -> Tok:
         if k is None:
             return Tok("bool_ty", __class__="OpaqueType")
-        return Tok(k.lower() + "_ty", __class__="NumericType", kind=Tok(k, value=members[k], name=k))
+        return Tok(k.lower() + "_ty", __class__="NumericType", kind=ev.kinds[k])
 
     kinds: list[str | None] = ["Nat", "Int", "Float", None]
     bad = []
@@ -105,7 +117,8 @@ def run(ctx: Ctx) -> None:
             asked.append((a[0], a[1]))
             return Tok("conv_fn", __methods__={"check_call": lambda recv, args, checked=checked: (checked.append(args), (Tok("coerced_node"), {}))[1]})
         # the lookup is a method of the token (reached through any alias of `ctx.globals`), not a hook on one spelling
-        env = {ps[0]: act, ps[1]: exp, ps[2]: Tok("node"), ps[3]: Tok("ctx", globals=Tok("globals", __methods__={"get_instance_func": get_instance_func}))}
+        env = {ps[0]: act, ps[1]: exp, ps[2]: Tok("node"), ps[3]: Tok("ctx", globals=Tok("globals", __methods__={"get_instance_func": get_instance_func})),
+               "NumericType": lambda nd, e, en: ty_tok(e.ev(nd.args[0], en).name)}
         n += 1
         try:
             out = ev.run_function(tc, env)
